@@ -103,10 +103,17 @@ StartStored(ex) == IF HasStart(ex) THEN << ex.startD, ex.startS, (ex.startMs \di
 CalStored(c) == IF c > 0 THEN c ELSE -4
 \* named deviation DefaultRadionuclide: RadionuclideDB::get_radionuclide("") is F-18 for PT, Tc-99m for NM, unknown otherwise
 RnOf(ex) == [rn |-> ex.rn, hlms |-> ex.hlms, brppm |-> ex.brppm]
-RadionuclideStored(ex, env) ==
-  IF ex.rn \in { "", "Unknown" }
-  THEN (IF ex.mod = "PT" THEN env.defPT ELSE IF ex.mod = "NM" THEN env.defNM ELSE env.defOther)
-  ELSE RnOf(ex)
+\* named deviation DatabaseTakesPrecedence: for a name the radionuclide database knows (for that modality) the reader
+\* takes half life and branching ratio from the database; the header's own numbers are used only for unknown names
+\* ("if (radionuclide.get_half_life(false) < 0) radionuclide = Radionuclide(name, ..., header values)")
+DbLookup(env, mod, name) == SelectSeq(env.db, LAMBDA x : x.mod = mod /\ x.rn = name)
+RadionuclideRead(env, mod, name, hlms, brppm) ==
+  IF name \in { "", "Unknown", "-" }
+  THEN (IF mod = "PT" THEN env.defPT ELSE IF mod = "NM" THEN env.defNM ELSE env.defOther)
+  ELSE LET hit == DbLookup(env, mod, name) IN
+       IF hit # << >> THEN [rn |-> name, hlms |-> hit[1].hlms, brppm |-> hit[1].brppm]
+       ELSE [rn |-> name, hlms |-> hlms, brppm |-> brppm]
+RadionuclideStored(ex, env) == RadionuclideRead(env, ex.mod, ex.rn, ex.hlms, ex.brppm)
 ExamStored(ex, env) ==
   LET r == RadionuclideStored(ex, env) IN
   [mod |-> ex.mod, orient |-> ex.orient, rot |-> ex.rot, frames |-> FramesStored(ex.frames),
@@ -137,8 +144,7 @@ ExamToHeader(ex) ==
 ExamFromHeader(h, env) ==
   LET mod == IF h.mod = "-" THEN "Unknown" ELSE h.mod
       \* a named radionuclide is taken from the database or, failing that, from the header's own numbers: the same numbers
-      r == IF h.rn = "-" THEN (IF mod = "PT" THEN env.defPT ELSE IF mod = "NM" THEN env.defNM ELSE env.defOther)
-           ELSE [rn |-> h.rn, hlms |-> h.hlms, brppm |-> h.brppm]
+      r == RadionuclideRead(env, mod, h.rn, h.hlms, h.brppm)
       fr == [f \in 1..h.nframes |->
                LET hit == SelectSeq(h.frames, LAMBDA x : x[1] = f) IN IF hit = << >> THEN << 0, 0 >> ELSE << hit[1][2], hit[1][3] >>]
       win == h.lo8 > 0 /\ h.hi8 > 0 IN                                      \* "upper > 0 && lower > 0"
